@@ -218,7 +218,7 @@ class Real(object):
     def rows(self):
         """the database as a fresh db_session sees it (write tags)"""
         with db_session:
-            r = sorted(select(w.tag for w in self.W)[:])
+            r = sorted(t for _, t in select((w.id, w.tag) for w in self.W)[:])
             pairs = select((s.id, c.id) for s in self.Student for c in s.courses)[:]
         return sorted(r + link_tags(pairs))
 
@@ -301,7 +301,7 @@ class Real(object):
         if k == 'rollback': feature('branch:body-rollback'); rollback(); return
         if k == 'mark': self.trace.append(p['n']); return
         if k == 'observe':
-            r = sorted(select(w.tag for w in self.W)[:])       # a query: flushes whatever is pending
+            r = sorted(t for _, t in select((w.id, w.tag) for w in self.W)[:])       # a query: flushes whatever is pending (id kept: a one-attribute projection is DISTINCT)
             pairs = select((s.id, c.id) for s in self.Student for c in s.courses)[:]
             self.trace.append(sorted(r + link_tags(pairs))); return
         if k == 'raise': raise make_exc(p['e'])
@@ -513,12 +513,17 @@ def seq(*ps):
 
 
 LINK_POOL = []
+MODE = ['plain']
 
 
 def reset_link_pool(rng):
     """every (student, course) pair is touched at most once per program (an add of a present link would be a no-op)"""
     LINK_POOL[:] = [LINK_ADD + k for k in range(len(ABSENT_PAIRS))] + [LINK_REMOVE + k for k in range(len(INITIAL_PAIRS))]
     rng.shuffle(LINK_POOL)
+    # a body that commits itself and is then retried would repeat a link change that is already committed (a no-op on
+    # the real side): a program has either link writes or its own commit()/rollback() calls
+    MODE[0] = rng.choice(['links', 'manual', 'manual', 'plain'])
+    if MODE[0] != 'links': LINK_POOL[:] = []
 
 
 def rand_leafs(rng, base):
@@ -532,7 +537,7 @@ def rand_leafs(rng, base):
         for j in range(rng.choice([1, 1, 2])):
             if LINK_POOL: ps.append({'k': 'write', 'w': LINK_POOL.pop()})
     if rng.random() < 0.25: ps.append({'k': rng.choice(['flush', 'observe'])})
-    if rng.random() < 0.12: ps.append({'k': rng.choice(['commit', 'commit', 'rollback'])})     # the body commits / rolls back itself
+    if MODE[0] == 'manual' and rng.random() < 0.3: ps.append({'k': rng.choice(['commit', 'commit', 'rollback'])})     # the body commits / rolls back itself
     return ps
 
 
